@@ -31,12 +31,24 @@
   `ok_went_through_body_table`, `clen_framing`, `ok_with_content_length`: after a successful ParseSIPMsg with a parsed
   Content-Length `n` and body parsing on, `h` = where ParseHeaders stopped, `h + n ≤ len`, the returned offset is `h + n`
   and the body is `[h, h+n)`; with fewer bytes the verdict is MoreBytes at `h`.
-  NOT proved: pipelines containing a text that is complete only in no-more-data mode (truncated body).
+  A LAST text that is complete only in no-more-data mode (`Sipsp.Proofs.TruncPipeline`): `pipeline_last_truncated` — k
+  complete framing-definite messages followed by a text whose header block is complete and whose body is shorter than
+  its Content-Length: the caller's loop with the no-more-data flag returns the k moved stand-alone objects and then OK with
+  the truncated body reaching the end of the buffer (= the flagged stand-alone result of that text, moved; read back
+  byte for byte), without the flag the same k objects and MoreBytes at the body start; `pipeline_last_complete_at_end`
+  (any last text that alone ends OK at its end, e.g. a body-to-end message); `pipeline_flag_irrelevant_before_last`,
+  `flag_irrelevant_call`: the flag makes no difference for the complete messages in front; `declared_length_rules`,
+  `clen_fit_any_flags`: with a parsed Content-Length n and n bytes available the body is EXACTLY those n bytes whatever
+  follows and whatever the no-more-data flag says; `schedule_message_in_pipeline`, `schedule_last_truncated`,
+  `pipeline_chunking_irrelevant(_truncated)`: every chunk schedule of the pipeline buffer gives the same list of objects.
+  NOT proved: a truncated text that is not the last one (not a pipeline: the announced bytes are taken from the next
+  text); a last text whose header block is incomplete; schedules in which an earlier call already carries the flag.
 -/
 import Sipsp.Model.Msg
 import Sipsp.Proofs.ShiftMsg
 import Sipsp.Proofs.PipelineAlone
 import Sipsp.Proofs.AuditFixA
+import Sipsp.Proofs.TruncPipeline
 
 namespace Sipsp.C06
 open Sipsp
@@ -205,5 +217,100 @@ theorem clen_framing : type_of% @Sipsp.parseSIPMsg_clen_framing := @Sipsp.parseS
     (`h + n ≤ len(buf)`), the returned offset is `h + n` — the first byte after the body — and the body field is
     `Set(h,h).Extend(h+n)`, i.e. `[h, h+n)` when it fits the 16-bit fields. -/
 theorem ok_with_content_length : type_of% @Sipsp.parseSIPMsg_ok_clen := @Sipsp.parseSIPMsg_ok_clen
+
+/-! ### a last text with a truncated body, the no-more-data flag, declared lengths, chunk schedules of a pipeline (proved in `Sipsp.Proofs.TruncPipeline`) -/
+
+/-- **(1) `pipeline_last_truncated`**: the buffer holds `k` complete framing-definite messages `l` (complete under
+    `flags`, which does not carry the no-more-data flag) followed by a LAST text `y` whose header block is complete
+    (ends at `h` inside `y`) and whose body is shorter than its Content-Length (`tpTruncated`); body parsing on.
+    The caller's loop — Reset, ParseSIPMsg at the returned offset — started at 0 with an object of any history:
+    * run WITH the no-more-data flag (`flags'` = `flags` plus the flag) it returns the `k` moved stand-alone objects
+      and then, for the last text, the stand-alone no-more-data object of `y` moved by the start of `y`, and ends with
+      OK at the end of the buffer; that stand-alone object is what ONE call with the flag on `y` alone returns (OK at
+      `len(y)`), its body is `Set(h,h).Extend(len(y))`, and the moved body read back from the pipeline buffer is
+      exactly the bytes of `y` after its header block: the truncated body reaches the end of the buffer;
+    * run WITHOUT the flag it returns the same first `k` objects and stops with MoreBytes at the body start of the
+      last text (`len(messages) + h`): nothing of the truncated body is consumed. -/
+theorem pipeline_last_truncated : type_of% @Sipsp.pipeline_last_truncated := @Sipsp.pipeline_last_truncated
+
+/-- **`pipeline_last_complete_at_end`**: `k` complete framing-definite messages `l` followed by a last text `y` which,
+    parsed ALONE with the flag word `flags'` of the loop, gives OK exactly at its end with object `obj` — for whatever
+    reason: a truncated body in the no-more-data mode (then this is the first half of `pipeline_last_truncated`), or
+    "no Content-Length, body = rest of the buffer", or a complete framing-definite message. The caller's loop returns
+    the `k` moved stand-alone objects, then `obj` moved by the start of `y`, and ends with OK at the end of the buffer. -/
+theorem pipeline_last_complete_at_end : type_of% @Sipsp.pipeline_last_complete_at_end := @Sipsp.pipeline_last_complete_at_end
+
+/-- **(2) `pipeline_flag_irrelevant_before_last`**: the buffer holds the complete framing-definite messages `l` followed by
+    ANY last text `tail` (complete, truncated, garbage, empty). The caller's loop run with the no-more-data flag
+    (`flags'`) and the loop run without it (`flags`) return the same first `k = l.length` objects: entry `i` is the
+    stand-alone object of message `i` moved by the offset where message `i` starts. Whatever the flag changes, it
+    changes it at `tail`. -/
+theorem pipeline_flag_irrelevant_before_last : type_of% @Sipsp.pipeline_flag_irrelevant_before_last := @Sipsp.pipeline_flag_irrelevant_before_last
+
+/-- **(2), call level**: in a buffer `pre ++ (x ++ rest)` where `x` is a complete framing-definite message (`pre`, `rest`
+    arbitrary — e.g. a truncated last text in `rest`), the call at the start of `x` on a Reset object of any history
+    returns the same triple with the no-more-data flag (`flags'`) as without it (`flags`): the moved stand-alone
+    object of `x`, OK at the first byte after `x` (`flags_switch` of C01x at pipeline level) -/
+theorem flag_irrelevant_call : type_of% @Sipsp.tp_flag_irrelevant_call := @Sipsp.tp_flag_irrelevant_call
+
+/-- **(3) `declared_length_rules`**: body parsing on; the text `x`, parsed from a new / Init / Reset object at `o` with a
+    flag word `flags` without the no-more-data flag, gives OK with a parsed Content-Length `n` (so, by
+    `ok_with_content_length`, at least `n` bytes follow its header block). Then there is the offset `h` where the header
+    block ended such that for ANY bytes `rest` appended and for the flag word `flags'` WITH (or without) the
+    no-more-data flag, the call on `x ++ rest` returns exactly the same triple: OK at `h + n` with the same object,
+    whose body is `Set(h,h).Extend(h+n)` = exactly the `n` bytes `x[h : h+n]` after the blank line — never more (the
+    bytes of `rest`, or further bytes of `x`, are not taken, also when the caller says no more data will come) and
+    never fewer. -/
+theorem declared_length_rules : type_of% @Sipsp.declared_length_rules := @Sipsp.declared_length_rules
+
+/-- **the Content-Length row of the body table for ParseSIPMsg itself, for EVERY flag word with body parsing on** (the
+    no-more-data flag may be set or not, `parseSIPMsg_clen_framing` has the case without it): first line OK, header
+    block OK at `h` with a parsed Content-Length `n`, and `n` bytes available after `h`. Then the call says OK at
+    `h + n`, the object is finished, carries the parsed values, and the body field is `Set(h,h).Extend(h+n)`; within
+    the 16-bit limit it denotes exactly `buf[h : h+n]` — never more, never fewer, whatever follows. -/
+theorem clen_fit_any_flags : type_of% @Sipsp.tp_clen_fit := @Sipsp.tp_clen_fit
+
+/-- after any history, Reset + ParseSIPMsg WITH the no-more-data flag at the start of the truncated text `y` that is
+    preceded by `pre` and ends the buffer: OK at the end of the buffer, the stand-alone no-more-data object moved -/
+theorem truncated_call_nomore : type_of% @Sipsp.tp_turn_trunc_nmd := @Sipsp.tp_turn_trunc_nmd
+
+/-- … and WITHOUT the flag: MoreBytes at the body start of `y` (`pre.size + h`), nothing of the body consumed -/
+theorem truncated_call_more : type_of% @Sipsp.tp_turn_trunc_more := @Sipsp.tp_turn_trunc_more
+
+/-- **(4), a complete message inside the buffer, every schedule**: the buffer `B = pre ++ (x ++ rest)` arrives in
+    pieces: `c` is ANY growing list of prefixes of `B` ending with `B` (any number of cuts, anywhere — inside `x`,
+    inside `rest`, the last two buffers may be equal), the first of which reaches the start of `x`. The caller Resets
+    its object (any history) and calls ParseSIPMsg at the start of `x` on each buffer in turn, resuming at the
+    returned offset on the same object while the verdict is MoreBytes — with `flags` throughout (`resumeRun`), or with
+    `flags'` (e.g. plus the no-more-data flag) on the last buffer (`resumeRunEnd`). If `x` is a complete
+    framing-definite message, both chains return exactly what ONE call on `B` returns: OK at the first byte after `x`
+    with the stand-alone object of `x` moved by `pre.size`. The chunking does not show in the result. -/
+theorem schedule_message_in_pipeline : type_of% @Sipsp.tp_schedule_message := @Sipsp.tp_schedule_message
+
+/-- **(4), the truncated last text, every schedule**: `B = pre ++ y` where `y` has a complete header block (ending at
+    `h`) and a body shorter than its Content-Length, body parsing on; `c` is any growing list of prefixes of `B` ending
+    with `B` whose first buffer reaches the start of `y`. The chain of resumed calls from a Reset object with `flags`
+    (no no-more-data flag) on all buffers but the last and `flags'` (with the flag) on the last returns exactly what
+    ONE call with the flag returns: OK at the end of the buffer, the stand-alone no-more-data object of `y` moved by
+    `pre.size`; the chain with `flags` throughout ends with MoreBytes at the body start `pre.size + h`. -/
+theorem schedule_last_truncated : type_of% @Sipsp.tp_schedule_last_truncated := @Sipsp.tp_schedule_last_truncated
+
+/-- **(4) `pipeline_chunking_irrelevant`**: the buffer holds the complete framing-definite messages `l`; it arrives in
+    chunks, and the caller works through it with ONE message object, message after message, each message over its own
+    ARBITRARY chunk schedule (`tpScheds`: any cuts; the schedule of message `i` ends with any buffer that holds
+    messages `0..i` and possibly more). The streaming loop returns exactly the moved stand-alone objects — the list
+    that the loop over the complete buffer returns (`parse_all_pipeline`) — and ends at the end of the messages.
+    Neither the chunking nor a no-more-data flag on the last call of each schedule (`flags'`) shows in the result. -/
+theorem pipeline_chunking_irrelevant : type_of% @Sipsp.pipeline_chunking_irrelevant := @Sipsp.pipeline_chunking_irrelevant
+
+/-- **(4) + (1) `pipeline_chunking_irrelevant_truncated`**: `k` complete framing-definite messages `l`, each over its own
+    arbitrary chunk schedule, then a LAST text `y` with a complete header block (ending at `h`) and a body shorter
+    than its Content-Length, over an arbitrary schedule `cy` ending with the whole buffer `smCat l ++ y`; body parsing
+    on. With the no-more-data flag on the last call of each schedule (`flags'`) the streaming loop returns what the
+    loop over the complete buffer returns (`pipeline_last_truncated`): the `k` moved stand-alone objects, then the
+    stand-alone no-more-data object of `y` moved by the start of `y` (truncated body reaching the end of the buffer),
+    OK at the end of the buffer. Without the flag (`flags` throughout) it returns the same first `k` objects and stops
+    with MoreBytes at the body start of `y`. -/
+theorem pipeline_chunking_irrelevant_truncated : type_of% @Sipsp.pipeline_chunking_irrelevant_truncated := @Sipsp.pipeline_chunking_irrelevant_truncated
 
 end Sipsp.C06
